@@ -5,7 +5,7 @@ extern "C" {
 #include <mtbb/task_group.h>
 #include <mtbb/parallel_for.h>
 
-enum { FM_TG, FM_PF2, FM_PF3, FM_PFG };
+enum { FM_TG, FM_PF2, FM_PF3, FM_PFG, FM_TGF };
 typedef struct { int fam, a, b, c, d, W, K; } prog_t;
 #define MAXP 3000
 static prog_t P[2][MAXP]; static int NP[2];
@@ -15,6 +15,8 @@ static void build(void) {
   for (int tier = 0; tier < 2; tier++) for (int W = 1; W <= 2; W++) {
     /* task_group: n run() calls (inline capacity of the task list is 8), wait, then m more and wait again */
     for (int n = 0; n <= (tier ? 12 : 10); n++) { int K = n <= 2 ? 2 : (n <= 4 ? 1 : 0); if (tier && n <= 3) K = 3; add(tier, FM_TG, n, n > 8 ? 1 : n % 3, 0, 0, W, W == 1 ? (K ? 1 : 0) : K); }
+    /* task_group with closures of 48 bytes: the 256-byte chunks of the group's task memory overflow after a handful of run() calls, more than once */
+    for (int n = 4; n <= (tier ? 18 : 14); n++) add(tier, FM_TGF, n, n % 4, 0, 0, W, (n <= 7 && W == 2) ? 1 : 0);
     /* parallel_for(first, last): all first, last in -2..5 */
     for (int f = -2; f <= (tier ? 5 : 4); f++) for (int l = -2; l <= (tier ? 5 : 4); l++) { int len = l - f; int K = len <= 2 ? (tier ? 2 : 1) : (len <= 3 ? 1 : 0); add(tier, FM_PF2, f, l, 1, 0, W, W == 1 ? 0 : K); }
     /* parallel_for(first, last, step) */
@@ -29,6 +31,7 @@ static void describe(int tier, int prog, char * b, size_t n) {
   build(); prog_t * p = &P[tier][prog];
   switch (p->fam) {
   case FM_TG: snprintf(b, n, "task_group: %d run() calls, wait, %d more, wait", p->a, p->b); break;
+  case FM_TGF: snprintf(b, n, "task_group: %d run() calls with 48-byte closures, wait, %d more, wait", p->a, p->b); break;
   case FM_PF2: snprintf(b, n, "parallel_for(first=%d, last=%d)", p->a, p->b); break;
   case FM_PF3: snprintf(b, n, "parallel_for(first=%d, last=%d, step=%d)", p->a, p->b, p->c); break;
   default: snprintf(b, n, "parallel_for(first=%d, last=%d, step=%d, grainsize=%d)", p->a, p->b, p->c, p->d); break;
@@ -39,6 +42,7 @@ static volatile int hit[64];   /* index i is recorded at hit[i + 8] */
 static volatile int tasks_done;
 struct IndexBody { void operator()(int i) const { if (i < -8 || i >= 56) mv_fail("body called with index %d far outside the range", i); hit[i + 8]++; } };
 struct RangeBody { void operator()(int a, int b) const { for (int i = a; i < b; i++) { if (i < -8 || i >= 56) mv_fail("body called with sub-range [%d,%d) far outside the range", a, b); hit[i + 8]++; } } };
+struct FatTask { int id; unsigned char pad[44]; void operator()() const { for (int k = 0; k < 44; k++) if (pad[k] != (unsigned char)(id * 3 + k)) mv_fail("task %d: its closure was overwritten (byte %d) before it ran: two tasks share memory", id, k); if (id & 1) myth_yield(); hit[id]++; } };
 struct Task { int id; void operator()() const { if (id & 1) myth_yield(); tasks_done += 1 << 0; hit[id]++; } };
 
 static void check_loop(int first, int last, int step) {
@@ -59,6 +63,16 @@ static void run(int tier, int prog) {
     for (int i = 0; i < cur->b; i++) { Task t; t.id = 20 + i; tg.run(t); }
     tg.wait();
     for (int i = 0; i < cur->b; i++) if (hit[20 + i] != 1) mv_fail("second batch: task %d had run %d time(s) when wait() returned", i, hit[20 + i]);
+    for (int i = 0; i < cur->a; i++) if (hit[i] != 1) mv_fail("task %d ran again after the first wait (count %d)", i, hit[i]);
+    break; }
+  case FM_TGF: {
+    mtbb::task_group tg;
+    for (int i = 0; i < cur->a; i++) { FatTask t; t.id = i; for (int k = 0; k < 44; k++) t.pad[k] = (unsigned char)(i * 3 + k); tg.run(t); }
+    tg.wait();
+    for (int i = 0; i < cur->a; i++) if (hit[i] != 1) mv_fail("task %d had run %d time(s) when wait() returned", i, hit[i]);
+    for (int i = 0; i < cur->b; i++) { FatTask t; t.id = 30 + i; for (int k = 0; k < 44; k++) t.pad[k] = (unsigned char)((30 + i) * 3 + k); tg.run(t); }
+    tg.wait();
+    for (int i = 0; i < cur->b; i++) if (hit[30 + i] != 1) mv_fail("second batch: task %d had run %d time(s) when wait() returned", i, hit[30 + i]);
     for (int i = 0; i < cur->a; i++) if (hit[i] != 1) mv_fail("task %d ran again after the first wait (count %d)", i, hit[i]);
     break; }
   case FM_PF2: mtbb::parallel_for(cur->a, cur->b, IndexBody()); check_loop(cur->a, cur->b, 1); break;
